@@ -267,7 +267,7 @@ pub fn run(e: &'static Engine) {
         }
     }));
     e.par(jobs);
-    let total: u32 = e.tier.pick(6400, 96000);
+    let total: u32 = e.tier.pick(16000, 192000);
     let shards = e.tier.pick(32u32, 96);
     let mut jobs: Vec<Job> = Vec::new();
     for _ in 0..shards {
